@@ -454,7 +454,15 @@ func (dr *dirRepo) blobCreate(locked bool, opts ...BlobOpt) (BlobCreator, string
 
 // BlobDelete deletes an entry from the CAS.
 func (dr *dirRepo) BlobDelete(d digest.Digest) error {
-	return dr.blobDelete(d, false)
+	err := dr.blobDelete(d, false)
+	if err == nil {
+		// what referenced the blob, or was only referenced through it, may be collectable now: the next pass has to visit the repository
+		dr.mu.Lock()
+		dr.timeMod = time.Now()
+		dr.timeBlob = dr.timeMod
+		dr.mu.Unlock()
+	}
+	return err
 }
 
 func (dr *dirRepo) blobDelete(d digest.Digest, locked bool) error {
